@@ -1191,9 +1191,59 @@ func toolPathCheck(e *env, out string) []failure {
 	return nil
 }
 
+// gridRun: the effective shell for every combination of workflow default x job default x step
+// shell x runner (a default that says nothing about the shell hides no outer default)
+func gridRun(r *hx.Rng, idx int) *runSpec {
+	rs := &runSpec{Seed: r.Next(), Sched: map[string]behaviour{}, Entry: "files", MaxDelay: 0}
+	type def struct {
+		has int
+		sh  string
+	}
+	defs := []def{{0, ""}, {1, ""}, {2, "bash"}, {2, "python"}, {2, "pwsh"}, {2, "python -u {0}"}}
+	next := idx * 1000
+	for _, wd := range defs {
+		w := &wfSpec{HasDef: wd.has, DefShell: wd.sh}
+		for ji, jd := range defs {
+			for ri, ro := range []int{0, 1} {
+				job := &jobSpec{ID: fmt.Sprintf("j%d_%d", ji, ri), HasDef: jd.has, DefShell: jd.sh, RunsOn: runners[ro].y, Windows: runners[ro].w}
+				for _, sh := range []*string{nil, strp("bash"), strp("python")} {
+					st := &stepSpec{Shell: sh, Marker: next}
+					py := toolFor(w.effectiveShell(job, st)) == "py"
+					if py {
+						st.Script = fmt.Sprintf("print('T%dX')", next)
+					} else {
+						st.Script = fmt.Sprintf("echo T%dX", next)
+					}
+					role := "sc"
+					if py {
+						role = "py"
+					}
+					b := behaviour{Beh: "ok", Lat: 1}
+					if next%2 == 0 {
+						b = behaviour{Beh: "issues", Lat: 1, Issues: []issue{{Code: 1000 + next%100, Line: 1, Col: 1, Level: "warning", Msg: "dot."}}}
+						if role == "py" {
+							b.Issues[0] = issue{Code: 1, Line: 1, Col: 1, Msg: "undefined name 'x'"}
+						}
+					}
+					rs.Sched[strconv.Itoa(next)] = b
+					next++
+					job.Steps = append(job.Steps, st)
+				}
+				w.Jobs = append(w.Jobs, job)
+			}
+		}
+		rs.Wfs = append(rs.Wfs, w)
+		rs.Files = append(rs.Files, w.yaml())
+	}
+	return rs
+}
+
 func genRun(r *hx.Rng, idx int, thorough bool, cap int) *runSpec {
 	if idx < 2 {
 		return directedRun(r, 1+idx*2)
+	}
+	if idx == 2 {
+		return gridRun(r, idx)
 	}
 	rs := &runSpec{Seed: r.Next(), Sched: map[string]behaviour{}, Entry: "files"}
 	nf := 1 + r.Intn(4)
